@@ -62,6 +62,8 @@ type Program struct {
 	// anonymous functions included), sorted by name.
 	Fns    []*ssa.Function
 	LibFns []*ssa.Function // Fns minus cmd/...
+
+	homes map[*ssa.Function]homeSite // single call sites (helpers.go)
 	byName map[string]*ssa.Function
 
 	cg *callgraph.Graph
